@@ -113,4 +113,20 @@ Section Perm.
     intros OK P. destruct (node_run_perm c B B' OK P) as (_ & _ & RO & _ & JO).
     unfold output, out_resp, out_just. rewrite RO, JO. reflexivity.
   Qed.
+
+  (* agreement when every honest node reads its own permutation of the boards *)
+  Variable nodes : list (Z * Z).
+  Variable thr : Z.
+  Variable fast : bool.
+
+  Corollary pedersen_agreement_any_order (B Bi Bj : boards q) i ci j cj ri rj :
+    boards_ok q B -> boards_perm B Bi -> boards_perm B Bj ->
+    honest q nodes thr fast B i ci -> honest q nodes thr fast B j cj -> i <> j ->
+    output q ci Bi ri -> output q cj Bj rj ->
+    res_qual ri = res_qual rj /\ res_commits ri = res_commits rj.
+  Proof.
+    intros OK Pi Pj Hi Hj N Oi Oj.
+    apply (node_output_perm ci B Bi ri OK Pi) in Oi. apply (node_output_perm cj B Bj rj OK Pj) in Oj.
+    apply (pedersen_agreement q nodes thr fast B i ci j cj ri rj OK Hi Hj N Oi Oj).
+  Qed.
 End Perm.
